@@ -252,6 +252,14 @@ func Generate(profile string, seed uint64, tier string) (*Scenario, error) {
 				}
 			}
 		}
+		if g.P(0.012) {
+			// a hub that has seen more than a thousand dataset names: datasets created late are deleted, created again and
+			// written to like any other
+			sc.Ops = []Op{{K: "createMany", N: 1005}, {K: "deleteDataset", DS: "many1003"}, {K: "deleteDataset", DS: "many0002"},
+				{K: "createDataset", DS: "many1003"}, {K: "batch", DS: "many1003", Ents: []Ent{{"id": MkE + "m1", "props": map[string]any{}, "refs": map[string]any{}}}},
+				{K: "deleteDataset", DS: "many1003"}, {K: "renameDataset", DS: "many1004", DS2: "many1004b"}}
+			sc.Note = "many datasets"
+		}
 	case "C13":
 		sc.Property = "C13"
 		genC13(g, sc, tier)
